@@ -392,13 +392,9 @@ func genSpec(t *rapid.T, pool []string) rspec.Spec {
 	return s
 }
 
-func genAdj(t *rapid.T, pool []string) Adj {
+// genAdj draws one adjustment; every family is present with probability 1/den.
+func genAdj(t *rapid.T, pool []string, den int) Adj {
 	var a Adj
-	// Each family is present with probability 1/2 ("focused" cases: 1/5).
-	den := 2
-	if chance(t, "focused", 1, 4) {
-		den = 5
-	}
 	has := func(family string) bool { return chance(t, "has_"+family, 1, den) }
 
 	if has("annotations") {
@@ -527,10 +523,26 @@ func genAdj(t *rapid.T, pool []string) Adj {
 
 func genC13(t *rapid.T) C13Case {
 	pool := genDestPool(t)
-	return C13Case{
-		Spec:     genSpec(t, pool),
-		Adj:      genAdj(t, pool),
-		Reps:     32,
-		FromSpec: rapid.Bool().Draw(t, "from_spec"),
+	c := C13Case{Spec: genSpec(t, pool), Reps: 32}
+	// Each family is present with probability 1/2 ("focused" cases: 1/5).
+	den := 2
+	if chance(t, "focused", 1, 4) {
+		den = 5
 	}
+	c.Adj = genAdj(t, pool, den)
+	c.FromSpec = rapid.Bool().Draw(t, "from_spec")
+	// a history: zero to two further (smaller) adjustments on the same generator and spec
+	for i, n := 0, pick(t, "more_steps", 0, 0, 0, 1, 1, 2); i < n; i++ {
+		c.More = append(c.More, genAdj(t, pool, 3))
+	}
+	// the CDI injector callback edits the spec like a real one in half of the cases
+	if chance(t, "injector_edits", 1, 2) {
+		c.Inject = &Inject{
+			HookKind: pick(t, "inject_hook", append([]string{""}, hookKinds...)...),
+			Env:      rapid.Bool().Draw(t, "inject_env"),
+			Mount:    rapid.Bool().Draw(t, "inject_mount"),
+			Device:   rapid.Bool().Draw(t, "inject_device"),
+		}
+	}
+	return c
 }
